@@ -1,6 +1,7 @@
 package codec
 
 import (
+	"circlsim/fixtures"
 	"crypto"
 	"crypto/rand"
 	"crypto/rsa"
@@ -22,14 +23,9 @@ import (
 	"github.com/cloudflare/circl/zk/dleq"
 )
 
-// Fixture RSA key (generated once per process from a fixed stream; 1024 bits keeps it fast).
-var fixtureRSA = func() *rsa.PrivateKey {
-	k, err := rsa.GenerateKey(core.NewStream(20240101), 1024)
-	if err != nil {
-		panic("HARNESS: rsa fixture: " + err.Error())
-	}
-	return k
-}
+// Fixture RSA key (a committed PEM file: crypto/rsa.GenerateKey deliberately does not
+// replay from a fixed stream; 1024 bits keeps it fast).
+var fixtureRSA = func() *rsa.PrivateKey { return fixtures.RSAKey("std-1024-a") }
 
 var rsaKey *rsa.PrivateKey
 
@@ -175,6 +171,16 @@ func init() {
 				bts, _ := p.MarshalBinary()
 				return bts
 			},
+			Reuse: func() func(in []byte) Result {
+				var p dleq.Proof
+				return func(in []byte) Result {
+					if p.UnmarshalBinary(g, in) != nil {
+						return Result{}
+					}
+					_, a, ka, b, kb := stmt(0)
+					return Result{Accepted: dleq.Verifier{Params: params}.Verify(a, ka, b, kb, &p)}
+				}
+			},
 			Call: func(in []byte) Result {
 				var p dleq.Proof
 				if p.UnmarshalBinary(g, in) != nil {
@@ -197,6 +203,17 @@ func init() {
 				panic("HARNESS: KeyShare.MarshalBinary: " + err.Error())
 			}
 			return b
+		},
+		Reuse: func() func(in []byte) Result {
+			var ks tssrsa.KeyShare
+			return func(in []byte) Result {
+				if ks.UnmarshalBinary(in) != nil {
+					return Result{}
+				}
+				_ = ks.String()
+				ks.MarshalBinary()
+				return Result{Accepted: true}
+			}
 		},
 		Call: func(in []byte) Result {
 			var ks tssrsa.KeyShare
@@ -225,6 +242,19 @@ func init() {
 			}
 			return b
 		},
+		Reuse: func() func(in []byte) Result {
+			var ss tssrsa.SignShare
+			return func(in []byte) Result {
+				if ss.UnmarshalBinary(in) != nil {
+					return Result{}
+				}
+				_ = ss.String()
+				d := make([]byte, 128)
+				d[127] = 2
+				tssrsa.CombineSignShares(&RSAKey().PublicKey, []tssrsa.SignShare{ss, ss}, d)
+				return Result{Accepted: true}
+			}
+		},
 		Call: func(in []byte) Result {
 			var ss tssrsa.SignShare
 			if ss.UnmarshalBinary(in) != nil {
@@ -250,6 +280,12 @@ func init() {
 			pub.Export(out)
 			return out
 		},
+		Reuse: func() func(in []byte) Result {
+			var pub csidh.PublicKey
+			return func(in []byte) Result {
+				return Result{Accepted: pub.Import(in)}
+			}
+		},
 		Call: func(in []byte) Result {
 			var pub csidh.PublicKey
 			return Result{Accepted: pub.Import(in)}
@@ -263,6 +299,12 @@ func init() {
 			out := make([]byte, csidh.PrivateKeySize)
 			prv.Export(out)
 			return out
+		},
+		Reuse: func() func(in []byte) Result {
+			var prv csidh.PrivateKey
+			return func(in []byte) Result {
+				return Result{Accepted: prv.Import(in)}
+			}
 		},
 		Call: func(in []byte) Result {
 			var prv csidh.PrivateKey
@@ -378,18 +420,36 @@ func init() {
 	// ---- CP-ABE (tkn20) ----
 	Register(&Entry{Name: "tkn20.PublicKey.UnmarshalBinary", Seeds: 1, Cost: 80,
 		Valid: func(seed uint64) []byte { tknSetup(); b, _ := tknCache.pk.MarshalBinary(); return b },
+		Reuse: func() func(in []byte) Result {
+			var pk tkn20.PublicKey
+			return func(in []byte) Result {
+				return Result{Accepted: pk.UnmarshalBinary(in) == nil}
+			}
+		},
 		Call: func(in []byte) Result {
 			var pk tkn20.PublicKey
 			return Result{Accepted: pk.UnmarshalBinary(in) == nil}
 		}})
 	Register(&Entry{Name: "tkn20.SystemSecretKey.UnmarshalBinary", Seeds: 1, Cost: 80,
 		Valid: func(seed uint64) []byte { tknSetup(); b, _ := tknCache.msk.MarshalBinary(); return b },
+		Reuse: func() func(in []byte) Result {
+			var k tkn20.SystemSecretKey
+			return func(in []byte) Result {
+				return Result{Accepted: k.UnmarshalBinary(in) == nil}
+			}
+		},
 		Call: func(in []byte) Result {
 			var k tkn20.SystemSecretKey
 			return Result{Accepted: k.UnmarshalBinary(in) == nil}
 		}})
 	Register(&Entry{Name: "tkn20.AttributeKey.UnmarshalBinary", Seeds: 1, Cost: 80,
 		Valid: func(seed uint64) []byte { tknSetup(); b, _ := tknCache.ak.MarshalBinary(); return b },
+		Reuse: func() func(in []byte) Result {
+			var k tkn20.AttributeKey
+			return func(in []byte) Result {
+				return Result{Accepted: k.UnmarshalBinary(in) == nil}
+			}
+		},
 		Call: func(in []byte) Result {
 			var k tkn20.AttributeKey
 			return Result{Accepted: k.UnmarshalBinary(in) == nil}
@@ -403,6 +463,21 @@ func init() {
 		}})
 	Register(&Entry{Name: "tkn20.Policy.ExtractFromCiphertext+CouldDecrypt", Seeds: 1, Cost: 10,
 		Valid: func(seed uint64) []byte { tknSetup(); return tknCache.ct },
+		Reuse: func() func(in []byte) Result {
+			var p tkn20.Policy
+			return func(in []byte) Result {
+				err := p.ExtractFromCiphertext(in)
+				var attrs tkn20.Attributes
+				attrs.FromMap(map[string]string{"country": "nl"})
+				attrs.CouldDecrypt(in)
+				if err == nil {
+					_ = p.String()
+					p.Satisfaction(attrs)
+					p.ExtractAttributeValuePairs()
+				}
+				return Result{Accepted: err == nil}
+			}
+		},
 		Call: func(in []byte) Result {
 			var p tkn20.Policy
 			err := p.ExtractFromCiphertext(in)
@@ -424,6 +499,16 @@ func init() {
 	}
 	Register(&Entry{Name: "tkn20.Policy.FromString", Seeds: len(policies), Cost: 2,
 		Valid: func(seed uint64) []byte { return []byte(policies[seed%uint64(len(policies))]) },
+		Reuse: func() func(in []byte) Result {
+			var p tkn20.Policy
+			return func(in []byte) Result {
+				if p.FromString(string(in)) != nil {
+					return Result{}
+				}
+				_ = p.String()
+				return Result{Accepted: true}
+			}
+		},
 		Call: func(in []byte) Result {
 			var p tkn20.Policy
 			if p.FromString(string(in)) != nil {
